@@ -2,6 +2,7 @@ package c08
 
 import (
 	"fmt"
+	"strconv"
 	"strings"
 
 	"github.com/corazawaf/coraza/v3/verifharness/vh"
@@ -28,6 +29,7 @@ func specRun(engine string, rules []ruleJ, req []bool) (*obsJ, []string) {
 	}
 	var kinds []string
 	removed := map[int]bool{}
+	var removedRanges [][2]int
 	allow := "" // "", phase, request, all
 	blocks := func(p int) bool {
 		switch allow {
@@ -55,7 +57,17 @@ func specRun(engine string, rules []ruleJ, req []bool) (*obsJ, []string) {
 					ag = append(ag, r)
 				}
 			}
-			live := func(r ruleJ) bool { return !removed[r.ID] }
+			live := func(r ruleJ) bool {
+				if removed[r.ID] {
+					return false
+				}
+				for _, rg := range removedRanges {
+					if rg[0] <= r.ID && r.ID <= rg[1] {
+						return false
+					}
+				}
+				return true
+			}
 			i := 0
 			for i < len(ag) {
 				if p < 5 && o.Intr != nil {
@@ -85,6 +97,10 @@ func specRun(engine string, rules []ruleJ, req []bool) (*obsJ, []string) {
 					}
 					for _, id := range l.Rm {
 						removed[id] = true
+					}
+					if len(l.RmR) > 0 {
+						removedRanges = append(removedRanges, l.RmR...)
+						kinds = append(kinds, "ctl-remove-range")
 					}
 					if l.Eng != "" {
 						if l.Eng != mode {
@@ -198,6 +214,104 @@ func specRun(engine string, rules []ruleJ, req []bool) (*obsJ, []string) {
 		}
 	}
 	return o, kinds
+}
+
+// configure is the documented configure-time semantics, independently of the parser: a rule takes the
+// disruptive action of the SecDefaultAction of its phase (defined earlier in the file; phase 2 has the
+// built-in default pass) when it has none of its own or says block; SecRuleRemoveById removes, from the
+// rules read so far, every rule whose id is in a range and the first rule carrying a single id.
+func configure(ds []ruleJ) ([]ruleJ, []string) {
+	var out []ruleJ
+	var kinds []string
+	defs := map[int]string{}
+	for _, d := range ds {
+		switch {
+		case d.Default != nil:
+			if _, ok := defs[d.Default.Phase]; !ok {
+				defs[d.Default.Phase] = d.Default.DA
+			}
+		case len(d.Remove) > 0:
+			for _, tok := range d.Remove {
+				if lo, hi, ok := strings.Cut(tok, "-"); ok {
+					l, _ := strconv.Atoi(lo)
+					h, _ := strconv.Atoi(hi)
+					var kept []ruleJ
+					for _, r := range out {
+						if r.ID < l || r.ID > h {
+							kept = append(kept, r)
+						} else {
+							kinds = append(kinds, "SecRuleRemoveById-range-hit")
+						}
+					}
+					out = kept
+				} else {
+					id, _ := strconv.Atoi(tok)
+					for i, r := range out {
+						if r.ID == id {
+							out = append(append([]ruleJ{}, out[:i]...), out[i+1:]...)
+							if id == 0 {
+								kinds = append(kinds, "SecRuleRemoveById-0-first-marker")
+							} else {
+								kinds = append(kinds, "SecRuleRemoveById-id-hit")
+							}
+							break
+						}
+					}
+				}
+			}
+		case d.Marker != "":
+			out = append(out, d)
+		default:
+			r := d
+			var own []actJ
+			hasDa := false
+			block := false
+			for _, a := range writtenActs(d) {
+				switch a.A {
+				case "block":
+					block = true
+				case "pass":
+					hasDa = true
+				case "allow", "deny":
+					hasDa = true
+					own = append(own, a)
+				default:
+					own = append(own, a)
+				}
+			}
+			da, ok := defs[d.Phase]
+			if !ok && d.Phase == 2 {
+				da, ok = "pass", true
+			}
+			if ok && !hasDa {
+				switch da {
+				case "deny":
+					own = append(own, actJ{A: "deny"})
+				case "allow":
+					own = append(own, actJ{A: "allow"})
+				case "allow:phase":
+					own = append(own, actJ{A: "allow", Scope: "phase"})
+				case "allow:request":
+					own = append(own, actJ{A: "allow", Scope: "request"})
+				}
+				if da != "pass" {
+					if block {
+						kinds = append(kinds, "block-inherits-"+da)
+					} else {
+						kinds = append(kinds, "no-da-inherits-"+da)
+					}
+				}
+			} else if block && !ok {
+				kinds = append(kinds, "block-without-default")
+			} else if ok && hasDa && da != "pass" {
+				kinds = append(kinds, "own-da-overrides-default")
+			}
+			r.Acts = own
+			r.Inherit = false
+			out = append(out, r)
+		}
+	}
+	return out, kinds
 }
 
 func hasFlowLater(acts []actJ) bool {
